@@ -614,8 +614,28 @@ func (p c01) textStrings(r *core.Result, c core.Case) {
 	_ = time.Now
 }
 
-// c01typedDecodeAny decodes bytes with whichever typed decoder accepts them (session first).
+// c01typedDecodeAny decodes bytes with the typed decoder that matches the keys present (the same discrimination
+// the protocol uses), falling back to trying them all.
 func c01typedDecodeAny(b []byte) (interface{}, error) {
+	var keys map[string]json.RawMessage
+	if err := json.Unmarshal(b, &keys); err == nil {
+		kind := ""
+		switch {
+		case keys["state"] != nil:
+			kind = "session"
+		case keys["method"] != nil && keys["uri"] != nil:
+			kind = "request"
+		case keys["method"] != nil && keys["status"] != nil:
+			kind = "response"
+		case keys["event"] != nil:
+			kind = "notification"
+		case keys["content"] != nil:
+			kind = "message"
+		}
+		if kind != "" {
+			return c01typedDecode(kind, b)
+		}
+	}
 	var lastErr error
 	for _, k := range []string{"session", "request", "response", "notification", "message"} {
 		v, err := c01typedDecode(k, b)
